@@ -115,6 +115,10 @@ def apply_op(Food, op, x, y):
         return x.get_running_total_nutrients_sum()
     if op == "Shift1":
         return x.shift(1)
+    if op == "ShiftN":
+        return x.shift(2)
+    if op == "ShiftMore":
+        return x.shift(3)
     if op == "Slice":
         return x[0:2]
     if op == "Round":
